@@ -9,7 +9,7 @@ package mux
 
 // The bytes handed to Write1, in order (ghost output stream of a WriteBuf).
 //@ ghost var wlog bytes
-//@ ghost var wlen int
+//@ ghost var wlen int range 0 4611686018427387904
 
 // zig-zag + base-128 varint, closed form
 //@ spec zz(i int64) uint64 = uint64((i << 1) ^ (i >> 63))
@@ -27,7 +27,7 @@ package mux
 //@ spec logged(u uint64, base int, j int) bool = j < encLen(u) ==> wlog[base + j] == encByte(u, j)
 
 //@ func (wb *WriteBuf) PutInt64(i) (r)
-//@   requires wb != nil && 0 <= wlen && wlen < 4611686018427387904
+//@   requires wb != nil
 //@   modifies wlog, wlen, wb.buf, elems(wb.buf)
 //@   ensures! length: r == wb && wlen == old(wlen) + encLen(zz(i))
 //@   ensures! byte0: logged(zz(i), old(wlen), 0)
@@ -58,3 +58,12 @@ package mux
 //@   loop 0 unroll 10
 
 //@ lemma! zz_injective(a int64, b int64): zz(a) == zz(b) ==> a == b
+
+//@ property C41
+//@ func (rb *ReadBuf) GetStr() (s)
+//@   assumed
+//@   modifies rb.buf
+//@ func (wb *WriteBuf) PutBool(b) (r)
+//@   assumed
+//@   modifies wlog, wlen, wb.buf, elems(wb.buf)
+//@   ensures r == wb
